@@ -21,6 +21,26 @@ CLAIMS = {
   text="Coq theorems C02_tree / C02_subexpressions: whenever the model of the generated parser succeeds, the value it assembled piecewise through the templates (post-processing, sequence destructure/extend, choice conversion and defaults, optional defaults, closure accumulation, struct/override/@string assembly) equals the value the specification builds from the ordered field-match events of the successful path grouped by declared arity; for every sub-expression the events mention only its own field names. Tied by the correspondence stream; oracle = implementation tree vs extracted S tree.",
   note=TB + "Stated for grammars without memo/leftrec and pure hooks (memoized grammars: C05). Box is invisible in Debug and is not compared.",
   technique="Coq simulation proof with value relation (templates' assembly = shape of events) + differential correspondence"),
+ "C08": dict(
+  category="proof",
+  text="The specification S skips whitespace exactly at the documented points (before every field/rule reference, literal, range and $ of a skipping rule; included bodies under the includer's flag; callee rules under their own flag; the grammar's Whitespace rule shadowing the built-in). Coq: C08_points (M agrees with S on every consumed byte, by the simulation), C08_noskip, C08_callee, C08_builtin / C08_ws_set / C08_longest (the built-in skipper consumes the longest prefix over exactly the five ASCII whitespace bytes, proved over UTF-8 bytes). Oracle: implementation vs extracted S on inputs with whitespace and near misses (U+000B, U+00A0, U+2003) incl. user-defined Whitespace.",
+  note=TB + "Grammars without memo/leftrec and pure hooks for the simulation part.",
+  technique="Coq simulation proof + byte-level proof of the built-in skipper + differential correspondence"),
+ "C09": dict(
+  category="proof",
+  text="Coq: C09_span (the value M returns is S's value, whose @position nodes carry (offset at rule entry after the caller's skip, offset at exit); entry point starts at 0), C09_nest (in S every recorded range lies inside the span of the enclosing match with start<=end, successive field matches occupy successive non-overlapping stretches), C09_own, C09_string_slice. Oracle on implementation trees: ranges on char boundaries inside the input, nested in the enclosing range, Vec elements ordered, root at 0, @string @position string == slice, tree == S tree.",
+  note=TB + "Positions of values produced by user extern functions are assumed absent (hypothesis of C09_nest). Memoized/left-recursive grammars are covered by the oracle only.",
+  technique="Coq proof over the specification (span nesting/ordering) + simulation + differential correspondence"),
+ "C13": dict(
+  category="proof",
+  text="Coq: C13_decl (get_fields of `>R` = get_fields of the group of R's body, any fuel/tables), C13_run (the generated code for the include IS the generated code for the group of the body: equal results, trees, positions, farthest error, trace, cache and user state for any sub-evaluators, i.e. also with memo/leftrec and stateful hooks), C13_spec, C13_missing. Whole-grammar substitution (C13_subst) is not yet a theorem: partial. Oracle (metamorphic, no model): each generated grammar with includes vs its textual inlining — identical public type declarations, identical results on shared inputs.",
+  note=TB,
+  technique="Coq proof (definitional equality of the include and group templates) + metamorphic differential testing"),
+ "C14": dict(
+  category="proof",
+  text="Coq: C14_checks_spec (a rule with checks matches iff body matches and every check is true on the produced value, first failure wins), C14_conform (M = S with checks/externs as pure oracles: verdict, value passed to checks, consumed bytes, error), C14_run_checks (for arbitrary stateful hooks: directive order, stop at first false, ordinary Err at the body's end state), C14_extern (extern receives exactly the remaining input and the user state; Ok((v,n)) yields v and advances n through the checked advance). Correspondence: hook invocation logs and results equal the model's, with and without a user context.",
+  note=TB + "User functions are oracles; the harness ships a fixed library with Gallina twins (Hooks.v).",
+  technique="Coq simulation proof + wrapper-level lemmas + differential correspondence of hook-call logs"),
  "C10": dict(
   category="proof",
   text="Coq theorem C10_furthest: without memoized/left-recursive rules a reported error is the furthest-latest entry of the specification's log of failed attempts (lookahead scoping as the property states); C10_record_error pins the <= of record_error. Oracle on the implementation: position inside the input on a char boundary, never the sentinel, equal to the furthest-latest attempt of the extracted S. The 'really failed during that parse' clause for memoized/left-recursive grammars is checked by the oracle only (no theorem yet): partial.",
